@@ -28,6 +28,7 @@ PROBES = {
     "collect_statistic": "probe_collect_statistic",
     "add_for_level": "probe_collect_statistic",
     "dlt_message": "probe_dlt_message_intern",
+    "forward_to_next_storage_header": "probe_forward",
 }
 
 
